@@ -37,7 +37,7 @@ REPO = os.path.abspath(os.environ.get("VERIF_REPO", "/repo"))
 PYTHON = "/venv/bin/python"
 KNOWN_FINDINGS = os.path.join(VERIF_ROOT, "known_findings.json")
 EVIDENCE_DIR = os.path.join(VERIF_ROOT, "evidence")
-REPLAY_DIR = os.path.join(VERIF_ROOT, "replays")
+REPLAY_DIR = os.environ.get("QSIM_REPLAY_DIR") or os.path.join(VERIF_ROOT, "replays")
 
 
 class HarnessError(Exception):
@@ -567,9 +567,10 @@ def run_check(prop, engine_name, tier, seed, jobs, level, extra_evidence=None):
         "wall_s": round(wall, 2),
         "violations": n_viol,
     }
-    os.makedirs(EVIDENCE_DIR, exist_ok=True)
-    with open(os.path.join(EVIDENCE_DIR, prop + ".json"), "w") as fd:
-        json.dump(ev, fd, indent=1, sort_keys=True, default=repr)
+    if not os.environ.get("QSIM_NO_EVIDENCE"):
+        os.makedirs(EVIDENCE_DIR, exist_ok=True)
+        with open(os.path.join(EVIDENCE_DIR, prop + ".json"), "w") as fd:
+            json.dump(ev, fd, indent=1, sort_keys=True, default=repr)
     print("qsim: %s runs=%d evaluations=%d distinct=%d faults=%s probes=%s wall=%.1fs"
           % (prop, len(cases), n_eval, len(keys), faults, probes, wall), flush=True)
     if silent and exit_code == 0:
